@@ -208,10 +208,11 @@ def match_known(known, sig):
 # ---------------------------------------------------------------- evidence
 
 def write_evidence(prop, tier, seed, level, coverage, wall, violations, assumptions):
-    os.makedirs(os.path.join(VERIF, "evidence"), exist_ok=True)
+    evdir = os.environ.get("VERIF_EVIDENCE_DIR") or os.path.join(VERIF, "evidence")  # mutant runs must not overwrite the committed evidence
+    os.makedirs(evdir, exist_ok=True)
     ev = {"property_id": prop, "tier": tier, "seed": int(seed), "level": level, "coverage": coverage,
           "assumptions": assumptions, "wall_s": round(wall, 2), "violations": int(violations)}
-    path = os.path.join(VERIF, "evidence", prop + ".json")
+    path = os.path.join(evdir, prop + ".json")
     tmp = path + ".tmp"
     json.dump(ev, open(tmp, "w"), indent=1)
     os.replace(tmp, path)
@@ -307,10 +308,14 @@ def run_engine_a(sc, binary, mode, tier, seed0, count, chunk, nproc, race=False,
         chunks.append((s, n))
         s += n
 
+    stop = {"n": 0}
+
     def work(ch):
         start, n = ch
         done = []
         while n > 0:
+            if stop_on_violation and stop["n"] >= 8:
+                return done  # enough violations to report; the rest of the budget would only repeat them
             args = ["batch", "-mode", mode, "-tier", tier, "-corpus", sc.corpus_path, "-census", sc.census_path,
                     "-refdir", refdir, "-seeds", "%d:%d" % (start, n), "-samples", "1" if start == seed0 else "0"]
             if free:
@@ -324,6 +329,7 @@ def run_engine_a(sc, binary, mode, tier, seed0, count, chunk, nproc, race=False,
                 env["GORACE"] = "log_path=%s halt_on_error=0 atexit_sleep_ms=0" % prefix
             rc, lines, err = run_chunk(binary, args, env, timeout)
             done += lines
+            stop["n"] += sum(1 for l in lines if l.get("violation"))
             stopped = [l for l in lines if "stopped_after_seed" in l]
             finished = [l for l in lines if "batch_done" in l]
             if finished:
